@@ -33,7 +33,7 @@ CLAUSES = ["index-values", "index-axes", "index-item-metadata", "reduce-values",
            "one-axis-entry-per-dimension", "metadata-kept", "base-reduction-refused", "base-index-refused",
            "operation-completes", "potential-slice-thickness"]
 ASSUMPTIONS = ["index expressions for which numpy moves the result of integer and list indices separated by a slice/None to the front are not generated (abTEM refuses them eagerly, dask indexes orthogonally)",
-               "None next to a list/array index is not generated for lazy objects and array/object operands are skipped on dask arrays with zero-length chunks (dask 2026.8 defects reproduced without abTEM)",
+               "None next to a list/array index is not generated for lazy objects and a chain of operations stops being judged once a stepped slice has left zero-length chunks in the dask array (dask 2026.8 defects reproduced without abTEM: arange(4, chunks=2)[0:3:3] + 7 computes 2 items)",
                "PotentialArray.concatenate (from_array_and_metadata raises NotImplementedError), in-place operators and reflected + and - are not defined by abTEM and not in the workload",
                "the metadata entry of an axis reduced with keepdims=True is only required to exist and to fit a length-1 dimension"]
 QUICK = dict(n=2500, time=40)
@@ -587,6 +587,14 @@ def _check(ctx, case):
         n_ens = len(s.axes)
         ndim = s.arr.ndim
         det = dict(step=step, op=name, kind=desc["kind"], lazy=lazy)
+
+        if lazy and hasattr(s.obj.array, "chunks") and any(0 in c for c in s.obj.array.chunks):
+            # A stepped slice left zero-length chunks in the dask array.  dask 2026.8 itself then mis-computes what
+            # follows (pure dask, no abTEM: da.from_array(np.arange(4.), chunks=2)[0:3:3] + 7 declares shape (1,) and
+            # computes 2 items; same for reductions and concatenation over such chunks).  dask is part of the trusted
+            # base, so the rest of this chain cannot be judged.
+            ctx.note("chain-stopped-on-zero-length-dask-chunks")
+            break
 
         # ------------------------------------------------------------------ expected refusals
         if name == "reduce-base":
